@@ -263,6 +263,7 @@ type scenario struct {
 	thenSilent bool          // after the live phase the peer goes silent and must be expired
 	port0      bool          // regression: RECORD whose first UDP write fails
 	pre        bool          // the peer stops after SETUP (pre-play / pre-record) and goes silent: oracle-only
+	intruder   time.Duration // during the silent phase a peer on 127.0.0.2 replays the session id in requests at this period (oracle-only)
 }
 
 type scenResult struct {
@@ -423,7 +424,7 @@ func runScenario(s scenario) (res scenResult) {
 			evs[j], evs[j-1] = evs[j-1], evs[j]
 		}
 	}
-	if !s.tcp && !s.pre {
+	if !s.tcp && !s.pre && s.intruder == 0 {
 		for _, e := range evs {
 			cl.I(e.kind).N(uint64(e.t))
 		}
@@ -477,6 +478,33 @@ func runScenario(s scenario) (res scenResult) {
 		fail("live-peer-expired", "the peer kept following the protocol (keep-alives every %v, datagrams every %v) yet the session was closed %v after %s (%s)",
 			s.keepEvery, s.pktEvery, at.Sub(t0), methNames[last.meth], sr.why)
 	}
+	if s.thenSilent && !closed && s.intruder > 0 {
+		// requests that name the session from another address are refused and must not count as activity of the session
+		if ic, err := dialFrom("127.0.0.2", c.addr()); err == nil {
+			stopIntruder := make(chan struct{})
+			defer close(stopIntruder)
+			defer ic.nc.Close()
+			go func() {
+				for k := 1000; ; k++ {
+					select {
+					case <-stopIntruder:
+						return
+					case <-time.After(s.intruder):
+					}
+					ic.write(rq(0, mGetParam).wire(c.addr(), k, sid))
+					if _, err := ic.readResponse(respWait); err != nil {
+						// refused with an error response and closed: come back on a new connection
+						ic.nc.Close()
+						nic, err := dialFrom("127.0.0.2", c.addr())
+						if err != nil {
+							return
+						}
+						ic = nic
+					}
+				}
+			}()
+		}
+	}
 	if s.thenSilent && !closed {
 		lsMu.Lock()
 		ls := lastSend
@@ -496,7 +524,7 @@ func runScenario(s scenario) (res scenResult) {
 			fail("silent-peer-not-expired", "peer silent for %v (timeout %v + check period %v + slack %v) and the session is still open", bound, timeout, s.cp, timingSlack)
 		}
 	}
-	if !s.tcp && !s.pre {
+	if !s.tcp && !s.pre && s.intruder == 0 {
 		var il hx.L
 		il.B(closed)
 		res.implLine = il.String()
@@ -522,6 +550,7 @@ func scenarios(thorough bool) []scenario {
 		// connection's read deadline (IdleTimeout) ends connection and session, whatever the mode and the transport
 		{name: "pre-record-udp silent", record: true, pre: true, idle: 2 * S, read: 10 * S, cp: 200 * ms, thenSilent: true},
 		{name: "pre-play-udp silent", pre: true, idle: 2 * S, read: 10 * S, cp: 200 * ms, thenSilent: true},
+		{name: "play-udp silent, session id replayed from another address", idle: 2 * S, read: 10 * S, cp: 200 * ms, thenSilent: true, pre: false, intruder: 300 * ms},
 		{name: "pre-record-tcp silent", record: true, tcp: true, pre: true, idle: 2 * S, read: 10 * S, cp: 200 * ms, thenSilent: true},
 	}
 	if thorough {
